@@ -80,6 +80,8 @@ type K1 = Option<OrdVal>;
 enum CKey {
     One(K1),
     Two(K1, K1),
+    /// 3- and 4-component keys
+    Many(Vec<K1>),
 }
 
 fn k1_same(a: &K1, b: &K1) -> bool {
@@ -95,6 +97,7 @@ impl CKey {
         match (self, o) {
             (CKey::One(a), CKey::One(b)) => k1_same(a, b),
             (CKey::Two(a, a2), CKey::Two(b, b2)) => k1_same(a, b) && k1_same(a2, b2),
+            (CKey::Many(a), CKey::Many(b)) => a.len() == b.len() && a.iter().zip(b.iter()).all(|(x, y)| k1_same(x, y)),
             _ => false,
         }
     }
@@ -103,6 +106,7 @@ impl CKey {
         match self {
             CKey::One(a) => f(a),
             CKey::Two(a, b) => json!([f(a), f(b)]),
+            CKey::Many(v) => json!(v.iter().map(f).collect::<Vec<_>>()),
         }
     }
     fn score(&self) -> Option<f32> {
@@ -181,10 +185,21 @@ impl Cmp1 {
     }
 }
 
+/// true when the two keys are equal on their first `n` components
+fn prefix_tied(a: &CKey, b: &CKey, n: usize) -> bool {
+    match (a, b) {
+        (CKey::Many(x), CKey::Many(y)) => x.iter().zip(y.iter()).take(n).all(|(p, q)| k1_same(p, q)),
+        (CKey::Two(x, _), CKey::Two(y, _)) => n == 0 || k1_same(x, y),
+        _ => false,
+    }
+}
+
 #[derive(Clone, Copy, Debug)]
 enum CmpSpec {
     One(Cmp1),
     Two(Cmp1, Cmp1),
+    Three(Cmp1, Cmp1, Cmp1),
+    Four(Cmp1, Cmp1, Cmp1, Cmp1),
 }
 
 impl CmpSpec {
@@ -194,6 +209,15 @@ impl CmpSpec {
             (CmpSpec::Two(c1, c2), CKey::Two(x1, x2), CKey::Two(y1, y2)) => {
                 c1.rank(x1, y1).then_with(|| c2.rank(x2, y2))
             }
+            (CmpSpec::Three(c1, c2, c3), CKey::Many(x), CKey::Many(y)) if x.len() == 3 && y.len() == 3 => c1
+                .rank(&x[0], &y[0])
+                .then_with(|| c2.rank(&x[1], &y[1]))
+                .then_with(|| c3.rank(&x[2], &y[2])),
+            (CmpSpec::Four(c1, c2, c3, c4), CKey::Many(x), CKey::Many(y)) if x.len() == 4 && y.len() == 4 => c1
+                .rank(&x[0], &y[0])
+                .then_with(|| c2.rank(&x[1], &y[1]))
+                .then_with(|| c3.rank(&x[2], &y[2]))
+                .then_with(|| c4.rank(&x[3], &y[3])),
             _ => panic!("oracle key / comparator arity mismatch"),
         }
     }
@@ -251,6 +275,17 @@ enum SortKind {
     Custom(Option<Order>),
     TupleUI(Order, Order),
     TupleScoreStr(Order),
+    /// ((fu,o),(fi,o),(ff,o))
+    Tuple3UIF(Order, Order, Order),
+    /// ((fb,cmp),(custom table key,o),(fi,cmp)): few distinct values on the first two components
+    /// whatever the corpus
+    Tuple3BCI(Cmp1, Order, Cmp1),
+    /// ((score,desc),(fs,o),(fu,o))
+    Tuple3ScoreStrU(Order, Order),
+    /// ((fb,o),(fu,o),(fs,o),(fi,o))
+    Tuple4BUSI(Order, Order, Order, Order),
+    /// ((fu,o),(score,desc),(fd,o),(ff,o))
+    Tuple4UScoreDF(Order, Order, Order),
 }
 
 fn oname(o: Order) -> &'static str {
@@ -270,6 +305,8 @@ impl SortKind {
                 | SortKind::ScoreErased(_)
                 | SortKind::TweakTimesScore
                 | SortKind::TupleScoreStr(_)
+                | SortKind::Tuple3ScoreStrU(..)
+                | SortKind::Tuple4UScoreDF(..)
         )
     }
     /// score kinds for which a tolerance comparison is implemented
@@ -291,6 +328,8 @@ impl SortKind {
             SortKind::TweakMod7 | SortKind::TweakTimesScore | SortKind::TweakU64 => "tweak-score",
             SortKind::Custom(_) => "custom-sort-key",
             SortKind::TupleUI(..) | SortKind::TupleScoreStr(_) => "tuple-key",
+            SortKind::Tuple3UIF(..) | SortKind::Tuple3BCI(..) | SortKind::Tuple3ScoreStrU(..) => "tuple3-key",
+            SortKind::Tuple4BUSI(..) | SortKind::Tuple4UScoreDF(..) => "tuple4-key",
         }
     }
     fn name(&self) -> String {
@@ -312,6 +351,28 @@ impl SortKind {
             SortKind::Custom(Some(o)) => format!("order_by(custom computer,{})", oname(*o)),
             SortKind::TupleUI(a, b) => format!("order_by((fu,{}),(fi,{}))", oname(*a), oname(*b)),
             SortKind::TupleScoreStr(b) => format!("order_by((score,desc),(fs,{}))", oname(*b)),
+            SortKind::Tuple3UIF(a, b, c) => {
+                format!("order_by((fu,{}),(fi,{}),(ff,{}))", oname(*a), oname(*b), oname(*c))
+            }
+            SortKind::Tuple3BCI(a, b, c) => {
+                format!("order_by((fb,{}),(custom,{}),(fi,{}))", a.name(), oname(*b), c.name())
+            }
+            SortKind::Tuple3ScoreStrU(b, c) => {
+                format!("order_by((score,desc),(fs,{}),(fu,{}))", oname(*b), oname(*c))
+            }
+            SortKind::Tuple4BUSI(a, b, c, d) => format!(
+                "order_by((fb,{}),(fu,{}),(fs,{}),(fi,{}))",
+                oname(*a),
+                oname(*b),
+                oname(*c),
+                oname(*d)
+            ),
+            SortKind::Tuple4UScoreDF(a, c, d) => format!(
+                "order_by((fu,{}),(score,desc),(fd,{}),(ff,{}))",
+                oname(*a),
+                oname(*c),
+                oname(*d)
+            ),
         }
     }
     fn cmp(&self) -> CmpSpec {
@@ -329,6 +390,25 @@ impl SortKind {
             SortKind::Custom(Some(o)) => CmpSpec::One(Cmp1::from_order(*o)),
             SortKind::TupleUI(a, b) => CmpSpec::Two(Cmp1::from_order(*a), Cmp1::from_order(*b)),
             SortKind::TupleScoreStr(b) => CmpSpec::Two(Cmp1::Natural, Cmp1::from_order(*b)),
+            SortKind::Tuple3UIF(a, b, c) => {
+                CmpSpec::Three(Cmp1::from_order(*a), Cmp1::from_order(*b), Cmp1::from_order(*c))
+            }
+            SortKind::Tuple3BCI(a, b, c) => CmpSpec::Three(*a, Cmp1::from_order(*b), *c),
+            SortKind::Tuple3ScoreStrU(b, c) => {
+                CmpSpec::Three(Cmp1::Natural, Cmp1::from_order(*b), Cmp1::from_order(*c))
+            }
+            SortKind::Tuple4BUSI(a, b, c, d) => CmpSpec::Four(
+                Cmp1::from_order(*a),
+                Cmp1::from_order(*b),
+                Cmp1::from_order(*c),
+                Cmp1::from_order(*d),
+            ),
+            SortKind::Tuple4UScoreDF(a, c, d) => CmpSpec::Four(
+                Cmp1::from_order(*a),
+                Cmp1::Natural,
+                Cmp1::from_order(*c),
+                Cmp1::from_order(*d),
+            ),
         }
     }
     /// the document's true key: score from the exhaustive pass, everything else from the model
@@ -348,6 +428,31 @@ impl SortKind {
             SortKind::TupleScoreStr(_) => {
                 CKey::Two(Some(OrdVal::Sc(h.score)), d.fs.clone().map(OrdVal::S))
             }
+            SortKind::Tuple3UIF(..) => {
+                CKey::Many(vec![d.fu.map(OrdVal::U), d.fi.map(OrdVal::I), d.ff.map(OrdVal::F)])
+            }
+            SortKind::Tuple3BCI(..) => CKey::Many(vec![
+                d.fb.map(OrdVal::B),
+                custom_key(d).map(OrdVal::I),
+                d.fi.map(OrdVal::I),
+            ]),
+            SortKind::Tuple3ScoreStrU(..) => CKey::Many(vec![
+                Some(OrdVal::Sc(h.score)),
+                d.fs.clone().map(OrdVal::S),
+                d.fu.map(OrdVal::U),
+            ]),
+            SortKind::Tuple4BUSI(..) => CKey::Many(vec![
+                d.fb.map(OrdVal::B),
+                d.fu.map(OrdVal::U),
+                d.fs.clone().map(OrdVal::S),
+                d.fi.map(OrdVal::I),
+            ]),
+            SortKind::Tuple4UScoreDF(..) => CKey::Many(vec![
+                d.fu.map(OrdVal::U),
+                Some(OrdVal::Sc(h.score)),
+                d.fd.map(OrdVal::I),
+                d.ff.map(OrdVal::F),
+            ]),
         }
     }
 }
@@ -579,12 +684,104 @@ fn do_search(
             )),
             |v: (Option<u64>, Option<i64>)| CKey::Two(v.0.map(OrdVal::U), v.1.map(OrdVal::I)),
         ),
+        SortKind::Tuple3UIF(a, b, c) => run(
+            searcher,
+            q,
+            td().order_by((
+                (SortByStaticFastValue::<u64>::for_field("fu"), a),
+                (SortByStaticFastValue::<i64>::for_field("fi"), b),
+                (SortByStaticFastValue::<f64>::for_field("ff"), c),
+            )),
+            |v: (Option<u64>, Option<i64>, Option<f64>)| {
+                CKey::Many(vec![v.0.map(OrdVal::U), v.1.map(OrdVal::I), v.2.map(OrdVal::F)])
+            },
+        ),
+        SortKind::Tuple3BCI(a, b, c) => run(
+            searcher,
+            q,
+            td().order_by((
+                (SortByStaticFastValue::<bool>::for_field("fb"), a.to_enum()),
+                (ByTable(t.clone()), b),
+                (SortByStaticFastValue::<i64>::for_field("fi"), c.to_enum()),
+            )),
+            |v: (Option<bool>, Option<i64>, Option<i64>)| {
+                CKey::Many(vec![v.0.map(OrdVal::B), v.1.map(OrdVal::I), v.2.map(OrdVal::I)])
+            },
+        ),
+        SortKind::Tuple3ScoreStrU(b, c) => run(
+            searcher,
+            q,
+            td().order_by((
+                (SortBySimilarityScore, Order::Desc),
+                (SortByString::for_field("fs"), b),
+                (SortByStaticFastValue::<u64>::for_field("fu"), c),
+            )),
+            |v: (Score, Option<String>, Option<u64>)| {
+                CKey::Many(vec![Some(OrdVal::Sc(v.0)), v.1.map(OrdVal::S), v.2.map(OrdVal::U)])
+            },
+        ),
+        SortKind::Tuple4BUSI(a, b, c, d) => run(
+            searcher,
+            q,
+            td().order_by((
+                (SortByStaticFastValue::<bool>::for_field("fb"), a),
+                (SortByStaticFastValue::<u64>::for_field("fu"), b),
+                (SortByString::for_field("fs"), c),
+                (SortByStaticFastValue::<i64>::for_field("fi"), d),
+            )),
+            |v: (Option<bool>, Option<u64>, Option<String>, Option<i64>)| {
+                CKey::Many(vec![v.0.map(OrdVal::B), v.1.map(OrdVal::U), v.2.map(OrdVal::S), v.3.map(OrdVal::I)])
+            },
+        ),
+        SortKind::Tuple4UScoreDF(a, c, d) => run(
+            searcher,
+            q,
+            td().order_by((
+                (SortByStaticFastValue::<u64>::for_field("fu"), a),
+                (SortBySimilarityScore, Order::Desc),
+                (SortByStaticFastValue::<DateTime>::for_field("fd"), c),
+                (SortByStaticFastValue::<f64>::for_field("ff"), d),
+            )),
+            |v: (Option<u64>, Score, Option<DateTime>, Option<f64>)| {
+                CKey::Many(vec![
+                    v.0.map(OrdVal::U),
+                    Some(OrdVal::Sc(v.1)),
+                    v.2.map(|x| OrdVal::I(x.into_timestamp_secs())),
+                    v.3.map(OrdVal::F),
+                ])
+            },
+        ),
         SortKind::TupleScoreStr(b) => run(
             searcher,
             q,
             td().order_by(((SortBySimilarityScore, Order::Desc), (SortByString::for_field("fs"), b))),
             |v: (Score, Option<String>)| CKey::Two(Some(OrdVal::Sc(v.0)), v.1.map(OrdVal::S)),
         ),
+    }
+}
+
+fn random_multi_kind(rng: &mut Rng, exact: bool) -> SortKind {
+    let ord = |rng: &mut Rng| if rng.bool() { Order::Asc } else { Order::Desc };
+    let cmp = |rng: &mut Rng| {
+        *rng.pick(&[
+            Cmp1::Natural,
+            Cmp1::Reverse,
+            Cmp1::ReverseNoneLower,
+            Cmp1::NaturalNoneHigher,
+        ])
+    };
+    loop {
+        let k = match rng.weighted(&[4, 4, 2, 3, 2]) {
+            0 => SortKind::Tuple3UIF(ord(rng), ord(rng), ord(rng)),
+            1 => SortKind::Tuple3BCI(cmp(rng), ord(rng), cmp(rng)),
+            2 => SortKind::Tuple3ScoreStrU(ord(rng), ord(rng)),
+            3 => SortKind::Tuple4BUSI(ord(rng), ord(rng), ord(rng), ord(rng)),
+            _ => SortKind::Tuple4UScoreDF(ord(rng), ord(rng), ord(rng)),
+        };
+        if !exact && k.uses_score() {
+            continue;
+        }
+        return k;
     }
 }
 
@@ -600,7 +797,7 @@ fn random_sort_kind(rng: &mut Rng, exact: bool) -> SortKind {
     };
     let ff = |rng: &mut Rng| *rng.pick(&[FF::U, FF::I, FF::F, FF::D, FF::B, FF::S]);
     loop {
-        let k = match rng.weighted(&[30, 5, 3, 3, 4, 14, 10, 6, 3, 3, 2, 5, 5, 3]) {
+        let k = match rng.weighted(&[30, 5, 3, 3, 4, 14, 10, 6, 3, 3, 2, 5, 5, 3, 5, 5, 3, 4, 3]) {
             0 => SortKind::Score,
             1 => SortKind::ScoreTopN(ord(rng)),
             2 => SortKind::ScoreCmp(cmp(rng)),
@@ -614,7 +811,12 @@ fn random_sort_kind(rng: &mut Rng, exact: bool) -> SortKind {
             10 => SortKind::TweakU64,
             11 => SortKind::Custom(if rng.bool() { Some(ord(rng)) } else { None }),
             12 => SortKind::TupleUI(ord(rng), ord(rng)),
-            _ => SortKind::TupleScoreStr(ord(rng)),
+            13 => SortKind::TupleScoreStr(ord(rng)),
+            14 => SortKind::Tuple3UIF(ord(rng), ord(rng), ord(rng)),
+            15 => SortKind::Tuple3BCI(cmp(rng), ord(rng), cmp(rng)),
+            16 => SortKind::Tuple3ScoreStrU(ord(rng), ord(rng)),
+            17 => SortKind::Tuple4BUSI(ord(rng), ord(rng), ord(rng), ord(rng)),
+            _ => SortKind::Tuple4UScoreDF(ord(rng), ord(rng), ord(rng)),
         };
         if !exact && k.uses_score() && !k.approx_capable() {
             continue;
@@ -1175,11 +1377,21 @@ fn check_exact(
         }
         // two defects of the unchanged tree get their own, specific signatures (see the
         // attribution comments in `case`); everything else is keyed on collector family + problem
-        let sig = if p == "strictly-better-document-left-out" && !extra_sig.is_empty() {
+        // a third defect: the SortKeyComputer impl for 4-tuples has no `comparator()` override, so
+        // TopNComputer and merge use `Comparator::default()` (natural order for every component)
+        // instead of the component comparators; only keys that ask for a non-natural order differ
+        let four_with_order = matches!(
+            c.kind.cmp(),
+            CmpSpec::Four(a, b, cc, d) if [a, b, cc, d].iter().any(|x| *x != Cmp1::Natural)
+        );
+        let sig = if four_with_order {
+            format!("tuple4-key-ignores-component-order:{p}")
+        } else if p == "strictly-better-document-left-out" && !extra_sig.is_empty() {
             format!("block-max-segment-local-avgdl:{p}[{}]", c.kind.family())
-        } else if p == "tie-not-broken-by-ascending-address" && merge_truncates {
-            format!("merge-unsorted-segment-results:{p}[{}]", c.kind.family())
         } else {
+            // (the former `merge-unsorted-segment-results:` attribution is gone: that defect was
+            // repaired in /repo ee7ed766f; `merge_truncates` only feeds a reach counter now)
+            let _ = merge_truncates;
             format!("{}:{}", c.kind.family(), p)
         };
         rep.violation(
@@ -1557,6 +1769,30 @@ fn case(case: u64, rng: &mut Rng, rep: &mut Report, quick: bool) {
                 plan.push((kind, usize::MAX, rng.usize_below(3), false));
             }
         }
+        // 3- and 4-component keys: the cut falls inside a group of documents that tie on the first
+        // two (or three) components and belong to a segment holding more matches than O+K, so the
+        // per-segment top-N has to decide on the last components (resolved below); plus a
+        // paging run over such a key
+        if m >= 3 {
+            for _ in 0..3 {
+                let kind = random_multi_kind(rng, exact_q);
+                plan.push((kind, usize::MAX - 1, rng.usize_below(3), false));
+            }
+            if rng.chance(1, 3) {
+                let kind = random_multi_kind(rng, exact_q);
+                let mut p = *rng.pick(&[1usize, 2, 3, 5, 10, 33]);
+                if m / p > 16 {
+                    p = m / 16 + 1;
+                }
+                let mut off = 0usize;
+                while off <= m {
+                    plan.push((kind, p, off, true));
+                    off += p;
+                }
+                rep.count("paging_runs", 1);
+                rep.count("paging_runs_over_3_or_4_component_keys", 1);
+            }
+        }
         // paging: successive offsets over exactly comparable keys enumerate every match exactly
         // once, i.e. page i equals entries i*P..(i+1)*P of the full order
         if m >= 1 && rng.chance(1, 2) {
@@ -1604,6 +1840,42 @@ fn case(case: u64, rng: &mut Rng, rep: &mut Report, quick: bool) {
                 let o = o.min(t - 1);
                 rep.count("searches_with_cut_inside_a_tie_group_of_a_late_segment", 1);
                 (t - o, o)
+            } else if k == usize::MAX - 1 {
+                let arity = match spec {
+                    CmpSpec::Four(..) => 4,
+                    _ => 3,
+                };
+                // prefer groups tied on all but the last component, else on the first two
+                let find = |n: usize| -> Vec<usize> {
+                    (0..m.saturating_sub(1))
+                        .filter(|&i| {
+                            let (a, b) = (&expected_all[i], &expected_all[i + 1]);
+                            a.1.addr.segment_ord == b.1.addr.segment_ord
+                                && per_seg[&a.1.addr.segment_ord] > i + 1
+                                && prefix_tied(&a.0, &b.0, n)
+                                && spec.rank(&a.0, &b.0) != Ordering::Equal
+                        })
+                        .collect()
+                };
+                let mut cands = find(arity - 1);
+                if cands.is_empty() || rng.chance(1, 3) {
+                    let c2 = find(2);
+                    if !c2.is_empty() {
+                        cands = c2;
+                    }
+                }
+                if cands.is_empty() {
+                    // no such group: any K below the largest segment's match count
+                    let big = per_seg.values().copied().max().unwrap_or(1);
+                    let t = rng.urange(1, big.max(2) - 1).max(1);
+                    let o = o.min(t - 1);
+                    (t - o, o)
+                } else {
+                    let t = *rng.pick(&cands) + 1;
+                    let o = o.min(t - 1);
+                    rep.count("searches_with_cut_inside_a_group_tied_on_a_key_prefix_of_a_3_or_4_tuple", 1);
+                    (t - o, o)
+                }
             } else {
                 (k, o)
             };
@@ -1640,6 +1912,13 @@ fn case(case: u64, rng: &mut Rng, rep: &mut Report, quick: bool) {
                             }
                         }
                         SortKind::TupleScoreStr(_) => Some("fs"),
+                        SortKind::Tuple3UIF(..)
+                        | SortKind::Tuple3BCI(..)
+                        | SortKind::Tuple3ScoreStrU(..)
+                        | SortKind::Tuple4BUSI(..)
+                        | SortKind::Tuple4UScoreDF(..) => ["fu", "fi", "ff", "fb", "fs", "fd"]
+                            .into_iter()
+                            .find(|f| empty_column[*f]),
                         _ => None,
                     };
                     let sig = match field {
@@ -1750,6 +2029,7 @@ fn main() {
             "fast-field keys of the oracle come from the generated documents (looked up through the `id` fast field), not from tantivy's column readers",
             "f64 keys never contain NaN or -0.0; date keys are whole seconds (the default fast-field precision); negative boosts are not generated",
             "score keys are 'exact' for one scoring leaf or the sum of exactly two plain term clauses (float addition is commutative); otherwise 4*n ulp",
+            "tuple keys (2, 3 and 4 components mixing u64/i64/f64/date/bool/string fast fields, a custom computer and the score) are ordered lexicographically by the component comparators, then by address; K/O cuts are placed inside groups tied on a key prefix in segments holding more matches than O+K",
         ],
     );
 }
